@@ -101,6 +101,18 @@ SetSul ==
   /\ ei' = ei + 1
   /\ UNCHANGED << tid, ph, rd, nrec, bnd, dec, clf, cobj, cnf, rej, hcm, seen, projs, failedw >>
 
+(* so is the file header of a logical file: lf.file_header.header_id / .sequence_number = ... *)
+SetHeader ==
+  /\ ph = "ev" /\ ei <= NEvents /\ E.op = "set_header"
+  /\ clf' = IF E.outcome # "ok" THEN clf
+            ELSE [i \in DOMAIN clf |-> IF clf[i].lf # E.lf THEN clf[i]
+                    ELSE IF E.field = "header_id" THEN [clf[i] EXCEPT !.fh_id = E.text]
+                    ELSE [clf[i] EXCEPT !.fh_seq_dec = E.text]]
+  /\ verdict' = verdict \cup Tag(FlagClause(hcm.flag), ei)
+  /\ cnt' = [cnt EXCEPT !.events = @ + 1]
+  /\ ei' = ei + 1
+  /\ UNCHANGED << tid, ph, rd, nrec, bnd, dec, cfil, cobj, cnf, rej, hcm, seen, projs, failedw >>
+
 NoteHc(f, fid) == [i \in DOMAIN f |-> IF f[i].fid = fid THEN [f[i] EXCEPT !.allhc = @ /\ hcm.flag] ELSE f[i]]
 
 AddLf ==
@@ -418,7 +430,7 @@ CheckHistory ==          \* C10 / C11 / C14 same specification => same bytes; C1
 \* (handled in BeginWrite for the flag; caller data below)
 
 (* events this specification has no clause for are skipped (counted)        *)
-KnownOps == {"lowwrite", "write", "new_file", "add_lf", "add", "set", "nofmt_data", "hc_enter", "hc_exit", "hc_exit_exc", "encode", "attr", "set_sul", "nofmt_replace"}
+KnownOps == {"lowwrite", "write", "new_file", "add_lf", "add", "set", "nofmt_data", "hc_enter", "hc_exit", "hc_exit_exc", "encode", "attr", "set_sul", "nofmt_replace", "set_header"}
 SkipEvent ==
   /\ ph = "ev" /\ ei <= NEvents /\ E.op \notin KnownOps
   /\ ei' = ei + 1 /\ cnt' = [cnt EXCEPT !.events = @ + 1]
@@ -431,7 +443,7 @@ Finish ==
   /\ ph' = "done"
   /\ UNCHANGED << tid, ei, rd, nrec, bnd, dec, cfil, clf, cobj, cnf, rej, hcm, seen, projs, failedw, verdict, cnt >>
 
-Next == NewFile \/ SetSul \/ AddLf \/ AddObject \/ SetAttr \/ NofmtData \/ NofmtReplace \/ HcEvent \/ Encode \/ AttrEvent
+Next == NewFile \/ SetSul \/ SetHeader \/ AddLf \/ AddObject \/ SetAttr \/ NofmtData \/ NofmtReplace \/ HcEvent \/ Encode \/ AttrEvent
         \/ BeginWrite \/ ReadVR \/ EndFile \/ CheckStructure \/ CheckObjects \/ CheckData \/ CheckHistory
         \/ SkipEvent \/ Finish
 
